@@ -261,6 +261,16 @@ def main():
                 t_search = time.time()
                 t_budget = 180 if a.tier == "quick" else 1500      # seconds spent looking for a failing input
                 cfgs_s = prop["configs"]("thorough")
+                # start with the build configurations that the broken obligations speak about
+                btxt = " ".join(broken)
+                def relevance(c):
+                    sc = 0
+                    if re.search(r"U0|_u0", btxt) and not c.unaligned and c.vec128: sc += 4
+                    if re.search(r"_32(le|be)|w32", btxt) and not c.w64: sc += 2
+                    if re.search(r"_(64|32)be", btxt) and not c.le: sc += 2
+                    if re.search(r"Vec|vec(128|256)", btxt) and c.vec128: sc += 1
+                    return -sc
+                cfgs_s = sorted(cfgs_s, key=relevance)
                 for k in range(budget):
                     if time.time() - t_search > t_budget: break
                     for cfg_s in cfgs_s:
